@@ -339,27 +339,34 @@ class Comprehend(_Bodies):
             st = body[i]
             nxt = body[i + 1] if i + 1 < len(body) else None
             done = False
-            if isinstance(st, ast.Assign) and len(st.targets) == 1 and isinstance(st.targets[0], ast.Name) and self._empty(st.value) \
+            # the container that is filled: a local, or an attribute of self (then nothing in the loop may call a method of self, which
+            # could look at the half-filled attribute)
+            tgt0 = st.targets[0] if isinstance(st, ast.Assign) and len(st.targets) == 1 else None
+            is_attr = isinstance(tgt0, ast.Attribute) and isinstance(tgt0.value, ast.Name) and tgt0.value.id == "self"
+            if (isinstance(tgt0, ast.Name) or is_attr) and self._empty(st.value) \
                     and isinstance(nxt, ast.For) and not nxt.orelse and len(nxt.body) == 1:
-                kind, name = self._empty(st.value), st.targets[0].id
+                kind, name = self._empty(st.value), ast.unparse(tgt0)
                 inner, conds = nxt.body[0], []
                 while isinstance(inner, ast.If) and not inner.orelse and len(inner.body) == 1:
                     conds.append(inner.test)
                     inner = inner.body[0]
-                uses_self = lambda e: any(isinstance(y, ast.Name) and y.id == name for y in ast.walk(e))
+                is_it = lambda y: isinstance(y, (ast.Name, ast.Attribute)) and ast.unparse(y) == name
+                uses_self = lambda e: any(is_it(y) for y in ast.walk(e))
+                calls_self = is_attr and any(isinstance(y, ast.Call) and isinstance(y.func, ast.Attribute) and isinstance(y.func.value, ast.Name)
+                                             and y.func.value.id == "self" for y in ast.walk(nxt))
                 gen = lambda: [ast.comprehension(target=nxt.target, iter=nxt.iter, ifs=conds, is_async=0)]
                 new = None
-                if not uses_self(nxt.iter) and not any(uses_self(c) for c in conds) and not self._leaks(nxt):
+                if not uses_self(nxt.iter) and not any(uses_self(c) for c in conds) and not self._leaks(nxt) and not calls_self:
                     if kind == "list" and isinstance(inner, ast.Expr) and isinstance(inner.value, ast.Call) and isinstance(inner.value.func, ast.Attribute) \
-                            and inner.value.func.attr == "append" and isinstance(inner.value.func.value, ast.Name) and inner.value.func.value.id == name \
+                            and inner.value.func.attr == "append" and is_it(inner.value.func.value) \
                             and len(inner.value.args) == 1 and not inner.value.keywords and not uses_self(inner.value.args[0]):
                         new = ast.ListComp(elt=inner.value.args[0], generators=gen())
                     elif kind == "set" and isinstance(inner, ast.Expr) and isinstance(inner.value, ast.Call) and isinstance(inner.value.func, ast.Attribute) \
-                            and inner.value.func.attr == "add" and isinstance(inner.value.func.value, ast.Name) and inner.value.func.value.id == name \
+                            and inner.value.func.attr == "add" and is_it(inner.value.func.value) \
                             and len(inner.value.args) == 1 and not uses_self(inner.value.args[0]):
                         new = ast.SetComp(elt=inner.value.args[0], generators=gen())
                     elif kind == "dict" and isinstance(inner, ast.Assign) and len(inner.targets) == 1 and isinstance(inner.targets[0], ast.Subscript) \
-                            and isinstance(inner.targets[0].value, ast.Name) and inner.targets[0].value.id == name \
+                            and is_it(inner.targets[0].value) \
                             and not uses_self(inner.value) and not uses_self(inner.targets[0].slice):
                         new = ast.DictComp(key=inner.targets[0].slice, value=inner.value, generators=gen())
                 if new is not None:
@@ -581,7 +588,7 @@ def _fold_pass():
     return Fold()
 
 
-PASSES = (Untuple, FirstMatch, Expand, Nest, Default, Ternary, Orient, Merge, Compare, Comprehend, Alias, _fold_pass)
+PASSES = (Untuple, FirstMatch, Expand, Nest, Default, Ternary, Orient, Merge, Compare, _fold_pass, Comprehend, Alias, _fold_pass)
 
 
 def normalise(tree, passes=PASSES):
